@@ -408,6 +408,15 @@ func cmdCheck(args []string) {
 	exit := 0
 	reported := map[string]bool{}
 	var knownLines []string
+	knownObl := 0 // failed obligation instances (one per path) that match a listed finding
+	for _, f := range failures {
+		for _, kf := range known {
+			if kf.Kind == "known" && kf.Property == *prop && strings.Contains(f.ob.Name, kf.Obligation) && (kf.Path == "" || strings.Contains(f.ob.Path, kf.Path)) {
+				knownObl++
+				break
+			}
+		}
+	}
 	for _, f := range failures {
 		if reported[f.ob.Name] {
 			continue
@@ -561,23 +570,27 @@ func cmdCheck(args []string) {
 	ev := evidence{PropertyID: *prop, Tier: *tier, Seed: seed, Level: "proof", WallS: round3(time.Since(start).Seconds()), Violations: violations,
 		Assumptions: assumptions,
 		Coverage: map[string]interface{}{
-			"obligations":              nObl,
-			"discharged":               nDis,
-			"checker_cmd":              fmt.Sprintf("govc check -prop %s -tier %s (go/ssa -> SMT-LIB2; portfolio z3-new|z3|cvc5, %ds per obligation%s)", *prop, *tier, timeout, map[bool]string{true: ", every solver run, disagreement = failure", false: ""}[all]),
-			"trusted_base":             []string{"golang.org/x/tools v0.29.0 (go/packages, go/ssa)", "govc SSA->SMT translation", "z3 4.8.12", "z3 5.1.0", "cvc5 1.0.3"},
-			"functions_under_contract": fnList,
-			"function_modes":           modes,
-			"discharged_by_solver":     bySolver,
-			"solver_seconds":           round3(solverSecs),
-			"samples":                  samples,
-			"hook_files":               p.hookFileReport(),
-			"known_findings":           knownLines,
-			"spot_checks_testing":      spot,
-			"bounded_standins":         map[string]interface{}{"functions_of_repo_with_assumed_contract": assumedInRepo, "stand_in": "replay driver(s) of this property run on every tier (seeded random search, ~200k scenarios or 20 s; bounded, not a proof)"},
-			"mutants_total":            mutTotal,
-			"mutants_reported":         mutCaught,
-			"mutants_missed":           mutMissed,
-			"explanation":              "every obligation generated from /repo's current source for the functions whose contracts carry this property tag (ensures tagged with the property, all support clauses, loop invariants, call-site requires, frame and safety conditions) must be unsat; vacuity guards (requires/invariants satisfiable, a return reachable) must not be unsat",
+			// obligations that have to hold: everything generated except the instances
+			// that match an entry of known_findings.txt (counted separately below)
+			"obligations":               nObl - knownObl,
+			"discharged":                nDis,
+			"obligations_generated":     nObl,
+			"known_finding_obligations": knownObl,
+			"checker_cmd":               fmt.Sprintf("govc check -prop %s -tier %s (go/ssa -> SMT-LIB2; portfolio z3-new|z3|cvc5, %ds per obligation%s)", *prop, *tier, timeout, map[bool]string{true: ", every solver run, disagreement = failure", false: ""}[all]),
+			"trusted_base":              []string{"golang.org/x/tools v0.29.0 (go/packages, go/ssa)", "govc SSA->SMT translation", "z3 4.8.12", "z3 5.1.0", "cvc5 1.0.3"},
+			"functions_under_contract":  fnList,
+			"function_modes":            modes,
+			"discharged_by_solver":      bySolver,
+			"solver_seconds":            round3(solverSecs),
+			"samples":                   samples,
+			"hook_files":                p.hookFileReport(),
+			"known_findings":            knownLines,
+			"spot_checks_testing":       spot,
+			"bounded_standins":          map[string]interface{}{"functions_of_repo_with_assumed_contract": assumedInRepo, "stand_in": "replay driver(s) of this property run on every tier (seeded random search, ~200k scenarios or 20 s; bounded, not a proof)"},
+			"mutants_total":             mutTotal,
+			"mutants_reported":          mutCaught,
+			"mutants_missed":            mutMissed,
+			"explanation":               "every obligation generated from /repo's current source for the functions whose contracts carry this property tag (ensures tagged with the property, all support clauses, loop invariants, call-site requires, frame and safety conditions) must be unsat; vacuity guards (requires/invariants satisfiable, a return reachable) must not be unsat",
 		},
 	}
 	evFile := *evOut
